@@ -8,10 +8,11 @@ Line protocol of the C18 model (one s-expression in, one out):
   (rules)                                            ->  (NAME ...)        the rules the model knows
   (proof (CMD ...))                                  ->  (ok (TERM ...) TERM WK) | (reject ERR)   last sequent of
                                                          `validate(is_eval=True)`; WK = the run with the wellKinded test agrees
+  (refl (TERM) ((VAR TERM) ...))                     ->  (ok (TERM ...) TERM T) | (reject ERR)   verit_refl with its context
   (la Z|Q (LIT ...) (NUM ...))                       ->  T | F             la_generic / la_tautology accepts?
 TERM = (v n) | (k c) | (c TERM TERM);  HYPS = (TERM ...);  WK = T | F (`wellKinded`)
 CMD = (assume TERM) | (step RULE (TERM ...) (NAT ...) (NAT ...))     premises = positions of earlier commands
-  (arith comp Z|Q CMP ATM ATM RHS) | (arith minus Z|Q ATM ATM) | (arith uminus Z|Q ATM ATM) | (arith div Q ATM ATM)
+  (arith comp Z|Q CMP ATM ATM RHS) | (arith minus Z|Q ATM ATM) | (arith uminus Z|Q ATM ATM) | (arith div Q ATM ATM) | (arith sum|prod Z|Q ATM ATM)
   | (arith eqs Z|Q NEG ATM ATM tt|ff|other)  ->  T | F
 ATM = (l n) | (a k) | (+ ATM ATM) | (- ATM ATM) | (~ ATM) | (* ATM ATM) | (/ ATM ATM);  CMP in lt le gt ge
 RHS = tt | ff | (le ATM ATM) | (nle ATM ATM) | other
@@ -127,6 +128,10 @@ def arithOp : List Sexp → Option Bool
   | [.atom "minus", .atom "Z", a, b] => do some (Arith.minusSimplifyZ (← atmOf a) (← atmOf b))
   | [.atom "uminus", .atom "Q", a, b] => do some (Arith.unaryMinusSimplifyQ (← atmOf a) (← atmOf b))
   | [.atom "uminus", .atom "Z", a, b] => do some (Arith.unaryMinusSimplifyZ (← atmOf a) (← atmOf b))
+  | [.atom "sum", .atom "Q", a, b] => do some (Arith.sumSimplifyQ (← atmOf a) (← atmOf b))
+  | [.atom "sum", .atom "Z", a, b] => do some (Arith.sumSimplifyZ (← atmOf a) (← atmOf b))
+  | [.atom "prod", .atom "Q", a, b] => do some (Arith.prodSimplify (α := Rat) (← atmOf a) (← atmOf b))
+  | [.atom "prod", .atom "Z", a, b] => do some (Arith.prodSimplify (α := Int) (← atmOf a) (← atmOf b))
   | [.atom "div", .atom "Q", a, b] => do some (Arith.divSimplifyQ (← atmOf a) (← atmOf b))
   | [.atom "eqs", .atom "Q", n, a, b, r] => do some (Arith.eqSimplifyQ (← n.toBool?) (← atmOf a) (← atmOf b) (← erhsOf r))
   | [.atom "eqs", .atom "Z", n, a, b, r] => do some (Arith.eqSimplifyZ (← n.toBool?) (← atmOf a) (← atmOf b) (← erhsOf r))
@@ -161,6 +166,15 @@ def handle (line : String) : String :=
         | none => "(reject empty)"
       | .error e => toString (Sexp.list [.atom "reject", .atom (errTo e)])
     | none => "bad-op"
+  | some (.list [.atom "refl", cl, ctx]) =>
+    match tmsOf cl, (do (← ctx.toList?).mapM (fun p => match p with
+        | .list [a, b] => do some ((← tmOf a), (← tmOf b))
+        | _ => none)) with
+    | some c, some cx =>
+      match reflRule c cx with
+      | .ok s => toString (Sexp.list [.atom "ok", .list (s.hyps.map tmTo), tmTo s.prop, Sexp.ofBool true])
+      | .error e => toString (Sexp.list [.atom "reject", .atom (errTo e)])
+    | _, _ => "bad-op"
   | some (.list (.atom "arith" :: rest)) =>
     match arithOp rest with
     | some b => toString (Sexp.ofBool b)
